@@ -57,7 +57,8 @@ func unsafeRandString(n int) string {
 // parserRequestURL sets options for the hostclient and normalizes the URL.
 // It merges the baseURL with the request URI if needed and applies query and path parameters.
 func parserRequestURL(c *Client, req *Request) error {
-	splitURL := strings.Split(req.url, "?")
+	// The query starts at the first "?"; further ones belong to it.
+	splitURL := strings.SplitN(req.url, "?", 2)
 	// Ensure splitURL has at least two elements.
 	splitURL = append(splitURL, "")
 
@@ -82,7 +83,7 @@ func parserRequestURL(c *Client, req *Request) error {
 	req.RawRequest.SetRequestURI(uri)
 
 	// Merge query parameters.
-	hashSplit := strings.Split(splitURL[1], "#")
+	hashSplit := strings.SplitN(splitURL[1], "#", 2)
 	hashSplit = append(hashSplit, "")
 	args := fasthttp.AcquireArgs()
 	defer fasthttp.ReleaseArgs(args)
